@@ -200,58 +200,7 @@ func runC17(c *Ctx) {
 	r := c.R
 	g20 := &c20Gen{r: r}
 	soup := []string{"{", "}", "[", "]", "(", ")", "\"", "${", "%{", "}", "~}", "<<EOT\n", "EOT\n", "=", ",", ".", "*", "?", ":", "\n", " ", "\t", "#", "//", "/*", "*/", "a", "1", "-", "!", "&&", "for", "in", "if", "\\", "\\x4", "$${", "1e", "0x", "..."}
-	var ex func(d int) string
-	ex = func(d int) string {
-		if d <= 0 {
-			return gen.Pick(r, []string{"1", "x", "true", "null", "\"s\"", "a.b", "12.5e3", "\"t ${v}\""})
-		}
-		switch r.Intn(22) {
-		case 12:
-			return "{for k, v in " + ex(d-1) + " : " + gen.Pick(r, []string{"k", "v", "\"${k}\""}) + " => " + ex(d-1) + gen.Pick(r, []string{"", "...", " if " + ex(d-1), "... if v"}) + "}"
-		case 13:
-			return "[for " + gen.Pick(r, []string{"v", "i, v"}) + " in " + ex(d-1) + " : " + ex(d-1) + gen.Pick(r, []string{"", " if " + ex(d-1)}) + "]"
-		case 14:
-			return ex(d-1) + gen.Pick(r, []string{"[*]", "[*].a", "[*].a.b[0]", ".0", ".a.b", ".*", "[\"k\"]"})
-		case 15:
-			return gen.Pick(r, []string{"f()", "f(" + ex(d-1) + ")", "f(" + ex(d-1) + ",)", "f(\n" + ex(d-1) + ",\n" + ex(d-1) + "\n)"})
-		case 16:
-			return ex(d-1) + gen.Pick(r, []string{" != ", " >= ", " <= ", " > ", " || ", " / ", " - "}) + ex(d-1)
-		case 17:
-			return "{\n  k = " + ex(d-1) + "\n  \"q\" : " + ex(d-1) + "\n  (x) = " + ex(d-1) + ",\n}"
-		case 18:
-			return "(\n" + ex(d-1) + "\n)"
-		case 19:
-			return "<<-EOT\n    a ${" + ex(d-1) + "}\n  %{ for x in " + ex(d-1) + " ~}\n  ${x}\n  %{ endfor }\n  EOT\n"
-		case 20:
-			return "\"${~ " + ex(d-1) + " ~} %{~ if " + ex(d-1) + " ~} y %{~ else ~} n %{~ endif ~}\""
-		case 21:
-			return "[\n" + ex(d-1) + ",\n" + ex(d-1) + ",\n]"
-		case 0:
-			return ex(d-1) + gen.Pick(r, []string{" + ", " * ", " == ", " && ", " < ", "%", "-"}) + ex(d-1)
-		case 1:
-			return "(" + ex(d-1) + ")"
-		case 2:
-			return ex(d-1) + " ? " + ex(d-1) + " : " + ex(d-1)
-		case 3:
-			return "[" + ex(d-1) + ", " + ex(d-1) + "]"
-		case 4:
-			return "{ k = " + ex(d-1) + ", \"q\" = " + ex(d-1) + " }"
-		case 5:
-			return ex(d-1) + "[" + ex(d-1) + "]"
-		case 6:
-			return "f(" + ex(d-1) + ", " + ex(d-1) + "...)"
-		case 7:
-			return "[for k, v in " + ex(d-1) + " : k => v... if " + ex(d-1) + "]"
-		case 8:
-			return ex(d-1) + ".*.attr"
-		case 9:
-			return "\"a${" + ex(d-1) + "}b%{ if " + ex(d-1) + " }c%{ endif }\""
-		case 10:
-			return "<<EOT\n" + "line ${" + ex(d-1) + "}\nEOT\n"
-		default:
-			return gen.Pick(r, []string{"-", "!"}) + ex(d-1)
-		}
-	}
+	ex := func(d int) string { return exprSrc(r, d) }
 	exprs := func() string { return ex(1 + r.Intn(4)) }
 	jsons := []string{`{"a": 1, "b": {"c": [1, 2, "x${y}"], "d": null}}`, `{"block": {"label": {"attr": true}}, "list": [{"a": 1}, {"a": 2}]}`, `[{"x": "${a.b[0]}"}]`, `{"a": "é\n", "b": 1.5e3, "c": -0}`}
 	travs := []string{"a.b.c", "a[0].b", `a["k"].b[1]`, "a.*.b", "a[*]", "a . b", "a.0"}
@@ -388,3 +337,58 @@ func runC17(c *Ctx) {
 		c17Line(c, fmt.Sprintf("parse %s %s", mode, hx(src)))
 	}
 }
+
+// exprSrc: source text of a generated expression (mostly valid; shared by the C17 and C20 generators)
+func exprSrc(r *gen.Rng, d int) string {
+	ex := func(d int) string { return exprSrc(r, d) }
+
+		if d <= 0 {
+			return gen.Pick(r, []string{"1", "x", "true", "null", "\"s\"", "a.b", "12.5e3", "\"t ${v}\""})
+		}
+		switch r.Intn(22) {
+		case 12:
+			return "{for k, v in " + ex(d-1) + " : " + gen.Pick(r, []string{"k", "v", "\"${k}\""}) + " => " + ex(d-1) + gen.Pick(r, []string{"", "...", " if " + ex(d-1), "... if v"}) + "}"
+		case 13:
+			return "[for " + gen.Pick(r, []string{"v", "i, v"}) + " in " + ex(d-1) + " : " + ex(d-1) + gen.Pick(r, []string{"", " if " + ex(d-1)}) + "]"
+		case 14:
+			return ex(d-1) + gen.Pick(r, []string{"[*]", "[*].a", "[*].a.b[0]", ".0", ".a.b", ".*", "[\"k\"]", "[true]", "[null]", "[false]", "[0]"})
+		case 15:
+			return gen.Pick(r, []string{"f()", "f(" + ex(d-1) + ")", "f(" + ex(d-1) + ",)", "f(\n" + ex(d-1) + ",\n" + ex(d-1) + "\n)"})
+		case 16:
+			return ex(d-1) + gen.Pick(r, []string{" != ", " >= ", " <= ", " > ", " || ", " / ", " - "}) + ex(d-1)
+		case 17:
+			return "{\n  k = " + ex(d-1) + "\n  \"q\" : " + ex(d-1) + "\n  (x) = " + ex(d-1) + ",\n}"
+		case 18:
+			return "(\n" + ex(d-1) + "\n)"
+		case 19:
+			return "<<-EOT\n    a ${" + ex(d-1) + "}\n  %{ for x in " + ex(d-1) + " ~}\n  ${x}\n  %{ endfor }\n  EOT\n"
+		case 20:
+			return "\"${~ " + ex(d-1) + " ~} %{~ if " + ex(d-1) + " ~} y %{~ else ~} n %{~ endif ~}\""
+		case 21:
+			return "[\n" + ex(d-1) + ",\n" + ex(d-1) + ",\n]"
+		case 0:
+			return ex(d-1) + gen.Pick(r, []string{" + ", " * ", " == ", " && ", " < ", "%", "-"}) + ex(d-1)
+		case 1:
+			return "(" + ex(d-1) + ")"
+		case 2:
+			return ex(d-1) + " ? " + ex(d-1) + " : " + ex(d-1)
+		case 3:
+			return "[" + ex(d-1) + ", " + ex(d-1) + "]"
+		case 4:
+			return "{ k = " + ex(d-1) + ", \"q\" = " + ex(d-1) + " }"
+		case 5:
+			return ex(d-1) + "[" + ex(d-1) + "]"
+		case 6:
+			return "f(" + ex(d-1) + ", " + ex(d-1) + "...)"
+		case 7:
+			return "[for k, v in " + ex(d-1) + " : k => v... if " + ex(d-1) + "]"
+		case 8:
+			return ex(d-1) + ".*.attr"
+		case 9:
+			return "\"a${" + ex(d-1) + "}b%{ if " + ex(d-1) + " }c%{ endif }\""
+		case 10:
+			return "<<EOT\n" + "line ${" + ex(d-1) + "}\nEOT\n"
+		default:
+			return gen.Pick(r, []string{"-", "!"}) + ex(d-1)
+		}
+	}
